@@ -263,7 +263,8 @@ CHECKS["C15"] = dict(
            dict(name="trees2-s0", src="harness/sets_trees.cpp", cxxflags=["-DFAMILY=2"], args=["--script", "0"]),
            dict(name="trees2-s2", src="harness/sets_trees.cpp", cxxflags=["-DFAMILY=2"], args=["--script", "2"]),
            dict(name="trees2-s1", src="harness/sets_trees.cpp", cxxflags=["-DFAMILY=2"], args=["--script", "1"], thorough_only=True)] +
-          _units("harness/sets_trees.cpp", [3, 4, 5]),
+          _units("harness/sets_trees.cpp", [3, 4, 5]) +
+          [dict(name="trees6-s1", src="harness/sets_trees.cpp", cxxflags=["-DFAMILY=6"], args=["--script", "1"])],
     rule=SET_RULE,
     explanation="unit trees6: the map classes SkipListMap (HP, RCU) and EllenBinTreeMap (HP) behind the same adapter (harness/maps.h). SkipListSet (4-level scripted tower heights: all low, all high, mixed; HP, DHP, RCU), EllenBinTreeSet (HP, DHP, RCU), BronsonAVLTreeMap (RCU; injecting monitor over the shipped spin lock and over a mutex, "
                 "pool monitor over vyukov_queue_pool): set/map linearizability; extract_min/max: empty only if the container was empty at a linearization point inside the call, the key returned was present, "
@@ -280,8 +281,7 @@ CHECKS["C18"] = dict(
            dict(name="trees1-s1", src="harness/sets_trees.cpp", cxxflags=["-DFAMILY=1"], args=["--property", "C18", "--script", "1"], tier_args=dict(quick=["--bound", "1"])),
            dict(name="trees2-s2", src="harness/sets_trees.cpp", cxxflags=["-DFAMILY=2"], args=["--property", "C18", "--script", "2"], tier_args=dict(quick=["--bound", "1"])),
            dict(name="trees3", src="harness/sets_trees.cpp", cxxflags=["-DFAMILY=3"], args=["--property", "C18"], tier_args=dict(quick=["--bound", "1"])),
-           dict(name="trees5", src="harness/sets_trees.cpp", cxxflags=["-DFAMILY=5"], args=["--property", "C18"], tier_args=dict(quick=["--bound", "1"])),
-           dict(name="trees6-s1", src="harness/sets_trees.cpp", cxxflags=["-DFAMILY=6"], args=["--script", "1"])],
+           dict(name="trees5", src="harness/sets_trees.cpp", cxxflags=["-DFAMILY=5"], args=["--property", "C18"], tier_args=dict(quick=["--bound", "1"]))],
     rule=SET_RULE + "; for C18 only the quiescent post-conditions are judged (aux counter quiescent_states = number of quiescent points examined)",
     aux_names=["quiescent_states", "aux1", "aux2", "aux3"],
     explanation="post-condition evaluated at the quiescent point reached by every explored execution of the C13/C14/C15 programs: traversal strictly increasing (ordered containers) / without duplicates (hash sets) "
